@@ -1,4 +1,367 @@
-//! Part B ties (filled in below)
-pub fn syscalls(_a: &[String]) {}
-pub fn stress(_a: &[String]) {}
-pub fn stress_child(_a: &[String]) {}
+//! Part B ties.
+//!  `syscalls create|open|open-missing|create-existing <pattern>`: one real call between two markers
+//!   (`write(2, "C06-MARK …")`), to be run under strace; prints the paths by role on stdout.
+//!  `stress <rounds> <creators> <openers> <seed>`: k creator + m opener processes released by a barrier
+//!   (a FIFO-free spin on a shared file), random short sleeps, many rounds; checks "exactly one creator wins,
+//!   every successful opener sees the winner's settings, nothing of the round is left after everybody dropped".
+//!  `samenode <rounds> <seed>`: two threads of ONE node call `create` for the same service concurrently
+//!   (builders are Send); checks that the node of the successful creator still has its service tag.
+use crate::common::Rng;
+use crate::world::*;
+use iceoryx2::prelude::*;
+use std::io::Write;
+
+type S = ipc::Service;
+
+fn mark(s: &str) {
+    let _ = std::io::stderr().write_all(format!("C06-MARK {s}\n").as_bytes());
+}
+
+pub fn syscalls(a: &[String]) {
+    let what = a.first().map(|s| s.as_str()).unwrap_or("create");
+    let pat = a.get(1).map(|s| s.as_str()).unwrap_or("ps");
+    let prefix = format!("vs{}_", std::process::id());
+    let config = mk_config(&prefix);
+    let name = ServiceName::new(&format!("verif/svc/{}/sys", std::process::id())).unwrap();
+    let n0 = NodeBuilder::new().config(&config).create::<S>().unwrap();
+    let n1 = NodeBuilder::new().config(&config).create::<S>().unwrap();
+    let none: Vec<&str> = vec![];
+    let r = Req::parse(&none);
+    let first = if what == "open" || what == "create-existing" { Some(call(&n0, &name, pat, &r, Mode::Create).map_err(|e| e.to_string()).unwrap()) } else { None };
+    println!("root {}", root_dir());
+    println!("prefix {prefix}");
+    println!("node0 {}", n0.id().value());
+    println!("node1 {}", n1.id().value());
+    mark("begin");
+    let res = match what {
+        "create" => call(&n1, &name, pat, &r, Mode::Create),
+        "create-existing" => call(&n1, &name, pat, &r, Mode::Create),
+        _ => call(&n1, &name, pat, &r, Mode::Open),
+    };
+    mark("end");
+    println!("result {}", match &res { Ok(h) => format!("ok:{}", h.settings()), Err(e) => format!("err:{e}") });
+    drop(res);
+    drop(first);
+    drop(n0);
+    drop(n1);
+    cleanup_prefix(&prefix, false);
+    let _ = std::fs::remove_dir_all(root_dir());
+}
+
+fn usleep(us: u64) {
+    std::thread::sleep(std::time::Duration::from_micros(us));
+}
+
+/// parent: spawns the children once; every round: writes the round number into the go file, collects one
+/// result line per child from its stdout, checks the oracle.
+pub fn stress(a: &[String]) {
+    let rounds: usize = a.first().map(|s| n(s)).unwrap_or(50);
+    let creators: usize = a.get(1).map(|s| n(s)).unwrap_or(3);
+    let openers: usize = a.get(2).map(|s| n(s)).unwrap_or(3);
+    let seed: u64 = a.get(3).map(|s| s.parse().unwrap()).unwrap_or(1);
+    if a.iter().any(|x| x == "samenode-crash") {
+        return samenode_crash(rounds, seed);
+    }
+    if a.iter().any(|x| x == "samenode-crash-child") {
+        return samenode_crash_child(rounds, seed, a.iter().any(|x| x == "control"));
+    }
+    let threads = a.iter().any(|x| x == "samenode");
+    if threads {
+        return samenode(rounds, seed);
+    }
+    let me = std::env::current_exe().unwrap();
+    let pid = std::process::id();
+    let dir = format!("/tmp/c06stress{pid}");
+    std::fs::create_dir_all(&dir).unwrap();
+    let go = format!("{dir}/go");
+    std::fs::write(&go, "0").unwrap();
+    let mut kids = vec![];
+    for i in 0..creators + openers {
+        let role = if i < creators { "c" } else if (i - creators) % 2 == 0 { "o" } else { "x" };
+        let ch = std::process::Command::new(&me)
+            .args(["stress-child", &pid.to_string(), &i.to_string(), role, &rounds.to_string(), &(seed + i as u64).to_string(), &go])
+            .stdin(std::process::Stdio::piped())
+            .stdout(std::process::Stdio::piped())
+            .spawn()
+            .unwrap();
+        kids.push(ch);
+    }
+    use std::io::BufRead;
+    let mut readers: Vec<_> = kids.iter_mut().map(|k| std::io::BufReader::new(k.stdout.take().unwrap())).collect();
+    let mut stats: std::collections::BTreeMap<String, usize> = Default::default();
+    let mut bad: Vec<String> = vec![];
+    let prefix = format!("vs{pid}_");
+    for round in 1..=rounds {
+        std::fs::write(&go, round.to_string()).unwrap();
+        // phase 1: everybody reports the result of its call (handles are kept)
+        let mut res = vec![];
+        for r in readers.iter_mut() {
+            let mut l = String::new();
+            r.read_line(&mut l).unwrap();
+            res.push(l.trim().to_string());
+        }
+        let winners: Vec<&String> = res.iter().take(creators).filter(|r| r.starts_with("ok:")).collect();
+        for r in &res {
+            *stats.entry(r.split(|c| c == ',' ).next().unwrap_or("").chars().take(60).collect::<String>().split(":mp=").next().unwrap().to_string()).or_insert(0) += 1;
+        }
+        if winners.len() > 1 {
+            bad.push(format!("round {round}: {} creators succeeded", winners.len()));
+        }
+        let docs = ["err:AlreadyExists", "err:DoesNotExist", "err:HangsInCreation", "err:IsMarkedForDestruction", "err:ExceedsMaxNumberOfNodes", "err:DoesNotSupportRequestedAmountOfPublishers", "err:IsBeingCreatedByAnotherInstance"];
+        for (i, r) in res.iter().enumerate() {
+            if r.starts_with("ok:") {
+                if i >= creators {
+                    match winners.first() {
+                        Some(w) if *w == r => {}
+                        Some(_) => bad.push(format!("round {round}: opener {i} sees settings that differ from the winner's: {r}")),
+                        None => bad.push(format!("round {round}: opener {i} succeeded although no creator succeeded")),
+                    }
+                }
+            } else if !docs.contains(&r.as_str()) {
+                bad.push(format!("round {round}: call {i} ended with `{r}`"));
+            }
+        }
+        // phase 2: tell everybody to drop; afterwards nothing of the service may exist
+        for k in kids.iter_mut() {
+            k.stdin.as_mut().unwrap().write_all(b"drop\n").unwrap();
+        }
+        for r in readers.iter_mut() {
+            let mut l = String::new();
+            r.read_line(&mut l).unwrap();
+        }
+        let left = list_files_root(&prefix, pid);
+        if left != "-" {
+            bad.push(format!("round {round}: left after all users dropped: {left}"));
+            cleanup_prefix(&prefix, true);
+        }
+    }
+    std::fs::write(&go, "stop").unwrap();
+    for k in kids.iter_mut() {
+        let _ = k.stdin.as_mut().unwrap().write_all(b"quit\n");
+        let _ = k.wait();
+    }
+    let _ = std::fs::remove_dir_all(&dir);
+    cleanup_prefix(&prefix, false);
+    let _ = std::fs::remove_dir_all(format!("/tmp/iceoryx2/vs{pid}"));
+    println!("rounds {rounds} creators {creators} openers {openers}");
+    for (k, v) in &stats {
+        println!("stat {k} {v}");
+    }
+    for b in bad.iter().take(10) {
+        println!("BAD {b}");
+    }
+    println!("bad {}", bad.len());
+}
+
+fn list_files_root(prefix: &str, pid: u32) -> String {
+    // like world::list_files but for the parent's root (children share it)
+    let root = format!("/tmp/iceoryx2/vs{pid}");
+    let mut counts: std::collections::BTreeMap<String, usize> = Default::default();
+    let mut scan = |dir: &std::path::Path| {
+        if let Ok(rd) = std::fs::read_dir(dir) {
+            for e in rd.flatten() {
+                let nm = e.file_name().to_string_lossy().to_string();
+                if nm.starts_with(prefix) {
+                    let kind = nm.rsplit('.').next().unwrap_or("?").to_string();
+                    if matches!(kind.as_str(), "service" | "dynamic" | "service_tag") {
+                        *counts.entry(kind).or_insert(0) += 1;
+                    }
+                }
+            }
+        }
+    };
+    scan(std::path::Path::new("/dev/shm"));
+    scan(std::path::Path::new(&format!("{root}/services")));
+    if let Ok(rd) = std::fs::read_dir(format!("{root}/nodes")) {
+        for e in rd.flatten() {
+            if e.path().is_dir() {
+                scan(&e.path());
+            }
+        }
+    }
+    let v: Vec<String> = counts.iter().map(|(k, c)| format!("{k}={c}")).collect();
+    if v.is_empty() { "-".into() } else { v.join(",") }
+}
+
+/// child: `stress-child <parent pid> <index> <c|o|x> <rounds> <seed> <go file>`
+pub fn stress_child(a: &[String]) {
+    let ppid: u32 = a[0].parse().unwrap();
+    let idx = n(&a[1]);
+    let role = a[2].as_str();
+    let rounds = n(&a[3]);
+    let mut rng = Rng::new(a[4].parse().unwrap());
+    let go = &a[5];
+    let prefix = format!("vs{ppid}_");
+    let mut config = mk_config(&prefix);
+    config.global.set_root_path(&Path::new(format!("/tmp/iceoryx2/vs{ppid}").as_bytes()).unwrap());
+    config.global.creation_timeout = core::time::Duration::from_millis(200);
+    let node = NodeBuilder::new().config(&config).create::<S>().unwrap();
+    let stdin = std::io::stdin();
+    for round in 1..=rounds {
+        let want = round.to_string();
+        // barrier: spin until the parent publishes the round number
+        loop {
+            match std::fs::read_to_string(go) {
+                Ok(s) if s == want => break,
+                Ok(s) if s == "stop" => return,
+                _ => std::hint::spin_loop(),
+            }
+        }
+        if rng.chance(60) {
+            usleep(rng.below(300));
+        }
+        let name = ServiceName::new(&format!("verif/svc/{ppid}/stress/{round}")).unwrap();
+        // creators use different settings (mp = 1 + index): the winner is recognisable by every opener
+        let ctoks = [format!("mp={}", 1 + idx), "mn=16".to_string()];
+        let ctoks: Vec<&str> = ctoks.iter().map(|s| s.as_str()).collect();
+        let otoks: Vec<&str> = if role == "x" { vec!["mp=64"] } else { vec![] };
+        let res = match role {
+            "c" => call(&node, &name, "ps", &Req::parse(&ctoks), Mode::Create),
+            _ => {
+                // an opener that comes too early gets DoesNotExist: retry a few times like an application would
+                let mut r = call(&node, &name, "ps", &Req::parse(&otoks), Mode::Open);
+                let mut tries = 0;
+                while matches!(&r, Err(e) if e == "DoesNotExist") && tries < 200 {
+                    usleep(50 + rng.below(200));
+                    r = call(&node, &name, "ps", &Req::parse(&otoks), Mode::Open);
+                    tries += 1;
+                }
+                r
+            }
+        };
+        println!("{}", match &res { Ok(h) => format!("ok:{}", h.settings()), Err(e) => format!("err:{e}") });
+        let mut l = String::new();
+        stdin.read_line(&mut l).unwrap();
+        if rng.chance(50) {
+            usleep(rng.below(200));
+        }
+        drop(res);
+        println!("dropped");
+    }
+}
+
+/// two threads, one node, both `create` the same fresh service
+fn samenode(rounds: usize, seed: u64) {
+    let prefix = format!("vs{}_", std::process::id());
+    let config = mk_config(&prefix);
+    let mut rng = Rng::new(seed);
+    let mut lost_tag = 0;
+    let mut both = 0;
+    let mut first_witness = String::new();
+    let node = NodeBuilder::new().config(&config).create::<ipc_threadsafe::Service>().unwrap();
+    let node_dir = format!("{}/nodes/{}", root_dir(), node.id().value());
+    for round in 0..rounds {
+        let name = ServiceName::new(&format!("verif/svc/{}/same/{round}", std::process::id())).unwrap();
+        let b1 = node.service_builder(&name).publish_subscribe::<u64>();
+        let b2 = node.service_builder(&name).publish_subscribe::<u64>();
+        let bar = std::sync::Arc::new(std::sync::Barrier::new(2));
+        let (d1, d2) = (rng.below(40), rng.below(40));
+        let (bar1, bar2) = (bar.clone(), bar.clone());
+        let t1 = std::thread::spawn(move || {
+            bar1.wait();
+            for _ in 0..d1 * 50 { std::hint::spin_loop(); }
+            b1.create()
+        });
+        let t2 = std::thread::spawn(move || {
+            bar2.wait();
+            for _ in 0..d2 * 50 { std::hint::spin_loop(); }
+            b2.create()
+        });
+        let (r1, r2) = (t1.join().unwrap(), t2.join().unwrap());
+        let oks = r1.is_ok() as usize + r2.is_ok() as usize;
+        if oks == 2 {
+            both += 1;
+        }
+        if oks == 1 {
+            // the node holds the service: its tag must exist
+            let tags = std::fs::read_dir(&node_dir).map(|rd| rd.flatten().filter(|e| e.file_name().to_string_lossy().ends_with(".service_tag")).count()).unwrap_or(0);
+            if tags == 0 {
+                lost_tag += 1;
+                if first_witness.is_empty() {
+                    first_witness = format!("round {round}: r1={:?} r2={:?} tags in node dir: 0", r1.as_ref().map(|_| "ok").map_err(|e| *e), r2.as_ref().map(|_| "ok").map_err(|e| *e));
+                }
+            }
+        }
+        drop(r1);
+        drop(r2);
+    }
+    drop(node);
+    cleanup_prefix(&prefix, false);
+    let _ = std::fs::remove_dir_all(root_dir());
+    println!("samenode rounds {rounds} both-succeeded {both} winner-without-tag {lost_tag}");
+    if !first_witness.is_empty() {
+        println!("witness {first_witness}");
+    }
+}
+
+/// consequence of the lost tag: a child process races two creators on one node until the winner's node has no
+/// service tag (control: until it has one), then dies (abort) while holding the service; the parent runs the
+/// dead-node cleanup and looks whether the service is removed
+fn samenode_crash(rounds: usize, seed: u64) {
+    let me = std::env::current_exe().unwrap();
+    for control in [false, true] {
+        let pid = std::process::id();
+        let mut args = vec!["stress".to_string(), rounds.to_string(), pid.to_string(), "0".to_string(), seed.to_string(), "samenode-crash-child".to_string()];
+        if control {
+            args.push("control".to_string());
+        }
+        let out = std::process::Command::new(&me).args(&args).output().unwrap();
+        let txt = String::from_utf8_lossy(&out.stdout).to_string();
+        let name = txt.lines().find_map(|l| l.strip_prefix("HOLDING ")).map(|s| s.to_string());
+        let prefix = format!("vs{pid}_");
+        let config = mk_config(&prefix);
+        match name {
+            None => println!("{}: child did not reach the state ({})", if control { "control" } else { "lost-tag" }, txt.trim()),
+            Some(nm) => {
+                let sn = ServiceName::new(&nm).unwrap();
+                let before = S::does_exist(&sn, &config, MessagingPattern::PublishSubscribe);
+                // a new node: cleanup_dead_nodes_on_creation, then an explicit cleanup
+                let node = NodeBuilder::new().config(&config).create::<S>().unwrap();
+                let st = node.try_cleanup_dead_nodes();
+                let after = S::does_exist(&sn, &config, MessagingPattern::PublishSubscribe);
+                // what an application sees afterwards
+                let open = node.service_builder(&sn).publish_subscribe::<u64>().open().map(|_| "ok").map_err(|e| format!("{e:?}"));
+                let create = node.service_builder(&sn).publish_subscribe::<u64>().create().map(|_| "ok").map_err(|e| format!("{e:?}"));
+                println!("{}: child died holding the service; exists before cleanup {:?}, cleanups {} failed {}, exists after cleanup {:?}, open {:?}, create {:?}",
+                    if control { "control" } else { "lost-tag" }, before, st.cleanups, st.failed_cleanups, after, open, create);
+                drop(node);
+            }
+        }
+        cleanup_prefix(&prefix, false);
+        let _ = std::fs::remove_dir_all(root_dir());
+    }
+}
+
+fn samenode_crash_child(rounds: usize, _seed: u64, control: bool) {
+    // a[1] of the parent call carried the parent's pid in the `creators` slot
+    let argv: Vec<String> = std::env::args().collect();
+    let ppid: u32 = argv[3].parse().unwrap();
+    let prefix = format!("vs{ppid}_");
+    let mut config = mk_config(&prefix);
+    config.global.set_root_path(&Path::new(format!("/tmp/iceoryx2/vs{ppid}").as_bytes()).unwrap());
+    let node = NodeBuilder::new().config(&config).create::<ipc_threadsafe::Service>().unwrap();
+    let node_dir = format!("/tmp/iceoryx2/vs{ppid}/nodes/{}", node.id().value());
+    for round in 0..rounds {
+        let nm = format!("verif/svc/{ppid}/crash/{}/{round}", control as u8);
+        let name = ServiceName::new(&nm).unwrap();
+        let b1 = node.service_builder(&name).publish_subscribe::<u64>();
+        let b2 = node.service_builder(&name).publish_subscribe::<u64>();
+        let bar = std::sync::Arc::new(std::sync::Barrier::new(2));
+        let (bar1, bar2) = (bar.clone(), bar.clone());
+        let t1 = std::thread::spawn(move || { bar1.wait(); b1.create() });
+        let t2 = std::thread::spawn(move || { bar2.wait(); b2.create() });
+        let (r1, r2) = (t1.join().unwrap(), t2.join().unwrap());
+        if r1.is_ok() as usize + r2.is_ok() as usize == 1 {
+            let tags = std::fs::read_dir(&node_dir).map(|rd| rd.flatten().filter(|e| e.file_name().to_string_lossy().ends_with(".service_tag")).count()).unwrap_or(0);
+            if (tags == 0) != control {
+                println!("HOLDING {nm}");
+                use std::io::Write;
+                std::io::stdout().flush().unwrap();
+                std::process::abort();
+            }
+        }
+        drop(r1);
+        drop(r2);
+    }
+    println!("not reached");
+}
